@@ -14,7 +14,8 @@ package streams
 //	           Rules.Match and createProxyRequest (secrets[0]).
 //	reload     the reload state machine: the real ParseRules / SetRules / ParseStorageConfigs /
 //	           SetStorageConfigs driven in the order read off configReloader's source.
-//	kf.C19-*   fixed witnesses of the known findings.
+//	kf.C19-*   fixed witnesses of the known findings (kf.C19-d) and, as regression cases that must
+//	           pass, of the repaired ones (kf.C19-a, kf.C19-b, kf.C19-host).
 
 import (
 	"encoding/json"
@@ -1086,7 +1087,7 @@ func reqPathCase(stream string, id int, sc reqPathScript) hx.Case {
 		}
 		return []string{"1", hx.X(u.Scheme), hx.X(u.Host), hx.X(u.RequestURI())}
 	})
-	if len(reparsed) == 1 { // DropPort panicked
+	if len(reparsed) == 1 { // a panic while building the matched string (DropPort did, before the fix for C05-b)
 		reparsed = []string{"0", hx.X(""), hx.X(""), hx.X("")}
 	}
 	in = append(in, reparsed...)
@@ -1119,6 +1120,7 @@ func reqPathCase(stream string, id int, sc reqPathScript) hx.Case {
 	return hx.Case{Stream: stream, ID: id, In: in, Impl: impl}
 }
 
+// witnesses of the repaired finding C05-b (DropPort panicked on `[` without `]`): regression cases
 var kfHost = []func() reqPathScript{
 	func() reqPathScript {
 		return reqPathScript{doc: simpleDoc(simpleRule("/a/*", "http://d0.test/$1")), host: "[abc", uri: "/a/x", method: "GET"}
@@ -1271,6 +1273,7 @@ func cacheEntry(id, path, size string) *cnode {
 	return nMap("id", nStr(id), "path", nStr(path), "size", nStr(size))
 }
 
+// witnesses of the repaired finding C19-a (SetRules ran before ParseStorageConfigs): regression cases
 var kfReloadA = []func() reloadScript{
 	func() reloadScript { // `size: 300` — a YAML integer where the decoder wants a string
 		return reloadScript{
@@ -1287,6 +1290,7 @@ var kfReloadA = []func() reloadScript{
 	},
 }
 
+// witnesses of the repaired finding C19-b (duplicate id/path panicked in the reloader): regression cases
 var kfReloadB = []func() reloadScript{
 	func() reloadScript {
 		return reloadScript{
